@@ -12,6 +12,7 @@
 (*         reversed call must answer LCmp(b, cur)                           *)
 (*   add   cur := cur + n, or a panic (cur unchanged) for n > 2^31 - 1     *)
 (*   zonebump  the zone store's SOA serial bump on commit: cur := cur + 1  *)
+(*   place cur as a signature time placed next to a reference time         *)
 EXTENDS SerialLimbs, Sequences, TLC, Json, IOUtils
 
 Rec == ndJsonDeserialize(IOEnv.TRACE)
@@ -66,7 +67,17 @@ T_ZoneBump == /\ IsEv("zonebump")
               /\ Rec[l].grew = TRUE
               /\ cur' = LAdd(cur, <<0, 1>>)
 
-TNext == T_Set \/ T_Cmp \/ T_Add \/ T_ZoneBump
+\* Timestamp::to_system_time: the serial cur placed next to the reference time
+\* era * 2^32 + r.  Where the placement is constrained (not at distance 2^31,
+\* not before the epoch) the result is Place; it always carries the serial.
+T_Place == /\ IsEv("place")
+           /\ IsLVal(Rec[l].r) /\ Rec[l].era \in 0 .. 3
+           /\ Rec[l].t.v = cur
+           /\ LPlaceConstrained(Rec[l].era, Rec[l].r, cur)
+                 => Rec[l].t.era = LPlaceEra(Rec[l].era, Rec[l].r, cur)
+           /\ UNCHANGED cur
+
+TNext == T_Set \/ T_Cmp \/ T_Add \/ T_ZoneBump \/ T_Place
 TSpec == TInit /\ [][TNext]_tvars
 
 TTypeOK == IsLVal(cur)
